@@ -878,6 +878,18 @@ fn big_op<N: ArrayLength>(which: &str) -> u64 {
             let b: Box<GA<u64, N>> = box_arr![7u64; N];
             checksum(&b)
         }
+        "box_arr_const" => {
+            // the length given as a constant expression (third arm of the macro): same promise
+            if n == 1 << 20 {
+                let b = box_arr![7u64; 1048576];
+                assert_eq!(b.len(), n);
+                checksum(&b)
+            } else {
+                let b = box_arr![7u64; 2097152];
+                assert_eq!(b.len(), n);
+                checksum(&b)
+            }
+        }
         "map" => {
             let b = <Box<GA<u64, N>> as GenericSequence<u64>>::generate(|i| i as u64);
             let c: Box<GA<u64, N>> = b.map(|x| x * 3);
@@ -914,7 +926,7 @@ fn expected_big(which: &str, n: usize) -> u64 {
     let f: Box<dyn Fn(usize) -> u64> = match which {
         "default_boxed" => Box::new(|_| 0),
         "generate" | "from_iter" | "try_boxed_from_iter" | "map" | "zip" | "fold" | "into_vec_roundtrip" => Box::new(|i| i as u64 * 3),
-        "box_arr_ty" => Box::new(|_| 7),
+        "box_arr_ty" | "box_arr_const" => Box::new(|_| 7),
         _ => panic!(),
     };
     let mut h = 0u64;
@@ -943,6 +955,10 @@ fn few_huge_op(which: &str) -> u64 {
         "try_boxed_from_iter" => sum(&GA::<Huge, FewHuge>::try_boxed_from_iter((0..48).map(|_| Huge::default())).ok().expect("exactly N")[..]),
         "box_arr_ty" => {
             let b: Box<GA<Huge, FewHuge>> = box_arr![Huge::default(); FewHuge];
+            sum(&b[..])
+        }
+        "box_arr_const" => {
+            let b = box_arr![Huge::default(); 48];
             sum(&b[..])
         }
         "map" => {
@@ -982,7 +998,7 @@ fn expected_few_huge() -> u64 {
     (0..48).fold(0u64, |h, _| h.wrapping_mul(31).wrapping_add(0x5A + 0x5A))
 }
 
-const BIG_OPS: &[&str] = &["default_boxed", "generate", "from_iter", "try_boxed_from_iter", "box_arr_ty", "map", "zip", "fold", "into_vec_roundtrip"];
+const BIG_OPS: &[&str] = &["default_boxed", "generate", "from_iter", "try_boxed_from_iter", "box_arr_ty", "box_arr_const", "map", "zip", "fold", "into_vec_roundtrip"];
 
 /// child entry: build a multi-MiB array on a 256 KiB-stack thread
 fn child_bigstack(args: &Args) -> ! {
